@@ -7,6 +7,7 @@ import (
 
 	"verif/fw"
 	"verif/gen"
+	"verif/ref"
 )
 
 // parseInput is one hostile input for the parser entry points.
@@ -37,8 +38,14 @@ func corpus() []string {
 	return famCorpus
 }
 
-// generatedValidFile is overridden once the bundle generator exists.
-var generatedValidFile = func(seed uint64) string { return gen.HandCorpus[int(seed)%len(gen.HandCorpus)] }
+// generatedValidFile prints one file of a generated valid bundle (multi-line or compact layout).
+var generatedValidFile = func(seed uint64) string {
+	r := fw.NewRand(seed*7919 + 13)
+	g := &gen.G{R: r}
+	g.O = gen.Opts{MaxDepth: 3, Msgs: true, Directives: true, Autoescape: true, LetShadow: true, Globals: true, IJ: true, MarkupDirs: true}
+	prog := g.Bundle(1, 2+r.Intn(3))
+	return ref.FileSrc(prog.B.Files[0], ref.Layout{Multiline: seed%2 == 0}, nil)
+}
 
 // parseFamilies is the case list of C05/C18: a pure function of the tier.
 func parseFamilies(tier string) []family {
